@@ -92,7 +92,7 @@ EXTRA = {
  "C17": "; scalar 1 / n+1 and additions with the identity in the history pass (results overwritten by the caller, arguments and generator compared afterwards); the endomorphism images lambda*P (same y, other x) for both roots of lambda^2+lambda+1 and the scalars lambda-1, lambda+1, lambda+2; scalars whose leading bits are a multiple of the group order (j*n+r for j<=20, r<=15 and (j*n)*2^s+r): the ladder passes through the identity; the caller's point, the scalar and the curve parameters compared after every multiplication",
  "C06": "; a behavioural probe (one squeezed block of all lanes on a clone) of the current instance after every history, so that state the state key does not see is not merged away; word-size generic permutation/sponge comparison in the GOARCH=386 and GOAMD64=v3 builds; re-entrancy pass also in the purego race build; ONE Absorb call with every block count 1..130 and ONE Squeeze call with 1..40 blocks against the one-lane reference, and every such input absorbed in another split; batches beyond the word size (33..65 lanes in the 386 build): refused or lane-wise correct",
  "C07": "; for every crypto.Hash a message of its digest length (and 16..64 bytes) announced through every kind of opts value must be refused; Options with a context and hash 0 sign like Sign; the first call of the process repeated after everything else",
- "C09": "; a valid sentence starting with every word of both lists: print, parse (same sentence), seed (succeeds, equals the reference); every sentence byte length that valid sentences of 12..24 words reach among 40000 candidates per word count, every passphrase length 0..300; three different valid sentences of EVERY word count 12..48 one after the other, twice; caller-supplied word lists (bip39.RegisterWordList) as an explicit-state search: all sequences of length <=3 (thorough 4) over 14 operations that select a correct, a nil, an incomplete list or one whose constructor panics, against a one-variable model of the selection",
+ "C09": "; a valid sentence starting with every word of both lists: print, parse (same sentence), seed (succeeds, equals the reference); every sentence byte length that valid sentences of 12..24 words reach among 40000 candidates per word count, every passphrase length 0..300; three different valid sentences of EVERY word count 12..48 one after the other, twice; caller-supplied word lists (bip39.RegisterWordList) as an explicit-state search: all sequences of length <=3 (thorough 4) over 14 operations that select a correct, a nil, an incomplete list or one whose constructor panics, against a one-variable model of the selection; receiver re-use: all sequences of length <=3 (thorough 4) of Mnemonic.UnmarshalText over 7 texts on ONE receiver x 3 initial receivers",
  "C10": "; every byte value and 13 look-alike runes substituted and inserted at every position of 9 templates; every component length 1..1100 (zero padding); kept MarshalText results; receiver re-use: all sequences of length <=3 (thorough 4) of UnmarshalText over 9 texts on ONE receiver x 4 initial receivers",
  "C15": "; every hash function package crypto knows and the binary links (18), counts 0..40; 100/65/300-byte leaves that differ only behind a common prefix; trees of trees (a leaf whose MarshalBinary hashes a sub-list with the same Hasher) and struct copies of a used Hasher; environment answers: a scripted hash constructor in the place of SHA-512/256 that fails (panics like an unavailable hash) on calls chosen by the explorer - all histories of length <=3 over 8 operations on one Hasher x every single failing constructor call (thorough: every pair), a Hasher first used before the hash was available, marshalers that fail or panic; every call that was not interrupted itself must return the tree hash",
  "C19": "; addresses whose checksum is right for another final constant (Bech32m, ...), valid Bech32 strings without data, the 90-tryte checksummed form of a migration address",
